@@ -249,7 +249,7 @@ theorem gsvd_predict_row (hc : 0 < nCol)
         * mget ((((regOf 1 nCol x p.regularization).rightDiag
             (tab nCol fun j => pinv (F.pow (vget out.weightsCol j) p.factorCol))).leftDiag
             (tab 1 fun i' => pinv (F.pow (vget ((regOf 1 nCol x p.regularization).matvec (tab nCol fun _ => 1)) i')
-              p.factorRow))).matmat out.singularValues.length out.right) 0 c)
+              p.factorRow))).matmat sv.length out.right) 0 c)
         / F.pow (vget out.singularValues c) p.factorSingular
       = gsvdRowRaw F nRow nCol p k dr dc wc sv u v i c := by
     intro c hcs
@@ -268,7 +268,7 @@ theorem gsvd_predict_row (hc : 0 < nCol)
       intro j hj
       rw [vget_tab_lt _ hj, hwcout, ← hwc, gsvd_weightsCol F nRow nCol a p hc j hj, ← hdc,
         gsvd_diagCol F nRow nCol a p hc j hj]
-    rw [matmat_diag_regOf 1 nCol _ x _ _ _ _ 0 c (by omega) (by rw [hlen]; exact hcs)]
+    rw [matmat_diag_regOf 1 nCol _ x _ _ _ _ 0 c (by omega) hcs]
     -- every entry of the weighted new row is the entry of the fitted operator
     have hent : ∀ j, j < nCol →
         (((regOf 1 nCol x p.regularization).rightDiag
@@ -284,10 +284,11 @@ theorem gsvd_predict_row (hc : 0 < nCol)
       rw [hr]
       unfold Spec.gsvdEntry Spec.aReg
       rw [hx j hj, ← hdr, ← hdc, gsvd_diagRow F nRow nCol a p hc i hi, gsvd_diagCol F nRow nCol a p hc j hj]
-      rfl
     rw [Finset.sum_congr rfl fun j hj => hent j (Finset.mem_range.mp hj)]
-    have hnr : (gsvdOperator F nRow nCol a p).2.2.2.2.nRow = nRow := rfl
-    have hnc : (gsvdOperator F nRow nCol a p).2.2.2.2.nCol = nCol := rfl
+    have hnr : (gsvdOperator F nRow nCol a p).2.2.2.2.nRow = nRow := by
+      unfold gsvdOperator; cases p.regularization <;> rfl
+    have hnc : (gsvdOperator F nRow nCol a p).2.2.2.2.nCol = nCol := by
+      unfold gsvdOperator; cases p.regularization <;> rfl
     have hcontract := (hsol c' hc').1 i (by rw [hnr]; exact hi)
     rw [hnc] at hcontract
     rw [hcontract, hdr0]
@@ -317,6 +318,65 @@ theorem gsvd_predict_row (hc : 0 < nCol)
     exact hraw c hc2
   · simp only [hnm, if_false, Bool.false_eq_true]
     rw [hlen, mget_mkMat_lt _ (by omega) hcs, mget_mkMat_lt _ hi hcs]
+    exact hraw c hcs
+
+/-! ### PCA -/
+
+theorem pcaMeans_eq (j : Nat) (hj : j < nCol) :
+    vget (pcaMeans nRow nCol a) j = (∑ i ∈ range nRow, mget a i j) / (nRow : α) := by
+  simp [pcaMeans, hj, sumN_eq_sum]
+
+/-- **`pca_centred_denote`**: the operator `PCA.fit` hands to the solver is the column-centred matrix `A − 1μᵀ` -/
+theorem pcaOperator_entry (i j : Nat) (hi : i < nRow) (hj : j < nCol) :
+    (pcaOperator nRow nCol a).entry i j = Spec.centredEntry nRow a i j := by
+  rw [pcaOperator_eq, entry_rank1, pcaMeans_eq nRow nCol a j hj]
+  simp only [vget_tab, hi, if_true, Spec.centredEntry, sumN_eq_sum]
+  ring
+
+/-- every column of the centred matrix sums to zero -/
+theorem centred_colsum_zero (hr : 0 < nRow) (j : Nat) : ∑ i ∈ range nRow, Spec.centredEntry nRow a i j = 0 := by
+  have hr' : (nRow : α) ≠ 0 := Nat.cast_ne_zero.mpr (Nat.pos_iff_ne_zero.mp hr)
+  simp only [Spec.centredEntry, sumN_eq_sum, Finset.sum_sub_distrib, Finset.sum_const, Finset.card_range,
+    nsmul_eq_mul]
+  field_simp
+  ring
+
+/-- **`pca_predict_row`**: `PCA.predict` on row `i` of the fitted matrix reproduces `embedding_row_[i]`, provided the
+    solver output satisfies its contract and the singular values are not zero. -/
+theorem pca_predict_row (nm : Bool)
+    (hsol : IsSingularTriplets (pcaOperator nRow nCol a) sv u v)
+    (i : Nat) (hi : i < nRow) (x : Mat α) (hx : ∀ j, j < nCol → mget x 0 j = mget a i j)
+    (hsv : ∀ c, c < sv.length → vget sv c ≠ 0)
+    (c : Nat) (hcs : c < sv.length) :
+    mget (pcaPredictCore F nm nCol sv v (pcaMeans nRow nCol a) 1 x) 0 c
+      = mget (pcaPost F nRow nCol nm (pcaMeans nRow nCol a) sv u v).embeddingRow i c := by
+  have hraw : ∀ c, c < sv.length →
+      ((sumN nCol fun j => mget x 0 j * mget v j c)
+        - vget (tab sv.length fun c => sumN nCol fun j => vget (pcaMeans nRow nCol a) j * mget v j c) c) / vget sv c
+      = mget u i c := by
+    intro c hcs
+    have hcon := (hsol c hcs).1 i hi
+    have hnc : (pcaOperator nRow nCol a).nCol = nCol := rfl
+    rw [hnc] at hcon
+    rw [vget_tab_lt _ hcs, sumN_eq_sum, sumN_eq_sum, ← Finset.sum_sub_distrib]
+    have : ∀ j ∈ range nCol, mget x 0 j * mget v j c - vget (pcaMeans nRow nCol a) j * mget v j c
+        = (pcaOperator nRow nCol a).entry i j * mget v j c := by
+      intro j hj
+      have hj' := Finset.mem_range.mp hj
+      rw [pcaOperator_eq, entry_rank1, vget_tab_lt _ hi, hx j hj']
+      ring
+    rw [Finset.sum_congr rfl this, hcon]
+    field_simp [hsv c hcs]
+  unfold pcaPredictCore pcaPost
+  simp only []
+  by_cases hnm : nm = true
+  · simp only [hnm, if_true]
+    refine normalize2_row_congr F 1 nRow sv.length _ _ 0 i (by omega) hi ?_ c hcs
+    intro c hc2
+    rw [mget_mkMat_lt _ (by omega) hc2]
+    exact hraw c hc2
+  · simp only [hnm, if_false, Bool.false_eq_true]
+    rw [mget_mkMat_lt _ (by omega) hcs]
     exact hraw c hcs
 
 end SkNet.Embedding
